@@ -35,7 +35,7 @@ func validID(id uint64) bool {
 	return tz%2 == 0 && tz <= 60
 }
 
-func levelOf(id uint64) int  { return maxLevel - bits.TrailingZeros64(id)/2 }
+func levelOf(id uint64) int   { return maxLevel - bits.TrailingZeros64(id)/2 }
 func sizeOf(id uint64) uint64 { return lsbOf(id) }
 func loOf(id uint64) uint64   { return (id - lsbOf(id)) >> 1 }
 func hiOf(id uint64) uint64   { return loOf(id) + lsbOf(id) - 1 }
